@@ -142,6 +142,13 @@ func drawAPICall(t *rapid.T) *APICall {
 	c.Bo = [2]bool{rapid.Bool().Draw(t, "b0"), rapid.Bool().Draw(t, "b1")}
 	c.Q = P{X: rapid.Int64Range(-R, R).Draw(t, "qx"), Y: rapid.Int64Range(-R, R).Draw(t, "qy")}
 	// "coordinates within range": the scaled magnitude of float inputs stays within 2^30
+	if c.Fn == "RectClipPathD" || c.Fn == "RectClipLinesPathD" {
+		// these take no precision and always use 2
+		m := float64(max(maxAbsPaths(c.A), abs64(c.Rect.L), abs64(c.Rect.R), abs64(c.Rect.T), abs64(c.Rect.B), 1))
+		if m/c.Div*100 > float64(int64(1)<<30) {
+			c.Div = 100
+		}
+	}
 	if c.takesPrecision() && c.Prec >= -8 && c.Prec <= 8 {
 		m := float64(max(maxAbsPaths(c.A), maxAbsPaths(c.B), abs64(c.Rect.L), abs64(c.Rect.R), abs64(c.Rect.T), abs64(c.Rect.B), 1))
 		for c.Prec > -8 && m/c.Div*math.Pow(10, float64(c.Prec)) > float64(int64(1)<<30) {
